@@ -29,8 +29,14 @@ fn total(ctx: &mut Ctx, monitor: &str, class: &str, rule: &Value, data: &Value) 
             ctx.violation(monitor, &format!("panic:{}:{}:{}", crate::ctx::top_op(rule), msg, site), rule, data, json!("a value or an error"), obs.out.brief(), "evaluation panicked");
             ctx.cell(&format!("{}:panic", class));
         }
-        Outcome::Ok(_) => ctx.cell(&format!("{}:value", class)),
-        Outcome::Err(_) => ctx.cell(&format!("{}:error", class)),
+        Outcome::Ok(_) => {
+            ctx.cell(&format!("{}:value", class));
+            ctx.remember_for_replay(rule, data, &obs.out);
+        }
+        Outcome::Err(_) => {
+            ctx.cell(&format!("{}:error", class));
+            ctx.remember_for_replay(rule, data, &obs.out);
+        }
     }
     if dt > CPU_BUDGET_NS && size <= 65536 {
         ctx.violation("c01.cpu-bound", &format!("cpu:{}", crate::ctx::top_op(rule)), rule, data, json!({"cpu_budget_ns": CPU_BUDGET_NS}), json!({"cpu_ns": dt}), "a call on a document of at most 64 KiB exceeded its CPU-time budget");
